@@ -103,6 +103,12 @@ inline int standard_main(int argc, char **argv, const std::function<Plan(const A
     for (size_t s = 0; s < plan.stages.size(); s++) {
         Stage &S = plan.stages[s];
         po.hang_s = S.hang_s;
+        if (a.budget_s > 0) {
+            // fair share: a stage may use what is left of the budget divided by the stages still to run, so that one deep
+            // stage cannot starve the ones behind it; what a stage leaves unused goes to the later ones
+            const double left = (t0 + a.budget_s) - now();
+            po.deadline       = now() + (left > 0 ? left : 0) / (double)(plan.stages.size() - s);
+        }
         Pool    pool(po);
         pool.cur_stage = (int)s;
         ChunkFn fn = [&](int64_t ch, Ctx &ctx) {
